@@ -32,6 +32,11 @@ func genC07(t *rapid.T) *ParseCase {
 		}
 	}
 	c.Args = genArgv(t, d, c07Argv)
+	if c.Handler == nil && !d.Has(flags.IgnoreUnknown) && rapid.IntRange(0, 2).Draw(t, "warmup") == 0 {
+		// the same parser object parsed another vector before
+		c.HasWarmup = true
+		c.Warmup = genArgv(t, d, &ArgvCfg{MaxItems: 2, WOpt: 60, WCluster: 5, WCmd: 10, WPlain: 5, WRepeat: 10})
+	}
 	return c
 }
 
@@ -42,7 +47,10 @@ func c07Oracle(c *ParseCase) string {
 		st.Label("skip: " + ref.Undetermined)
 		return ""
 	}
-	rr := RunReal(c.D, c.Args, nil, &RealCfg{Handler: c.Handler})
+	rr := RunReal(c.D, c.Args, nil, &RealCfg{Handler: c.Handler, Warmup: c.Warmup, HasWarmup: c.HasWarmup})
+	if c.HasWarmup {
+		st.Label("parser object had parsed another vector before")
+	}
 	if rr.Panic != "" || rr.SetupErr != nil {
 		st.Label("skip: panic or setup error")
 		return ""
@@ -168,6 +176,6 @@ func c07Oracle(c *ParseCase) string {
 }
 
 func TestC07(t *testing.T) {
-	S("C07").Rule = "declarations with sibling commands and nested namespaces x planned argv with unknown option tokens (near misses: case flip, one edit, truncated prefix, with/without namespace prefix, wrong delimiter; options of siblings or of commands named later; unknown runes; forms --u, --u=v, -u, -u=v, -uV) at random positions x policy {none, IgnoreUnknown, handler returning same / dropping one / a replacement}; oracle: R (ErrUnknownFlag naming the first unknown name | verbatim pass-through and continued parsing | handler call log: name, inline argument, exactly the unconsumed args, returned slice parsed next). non-trivial: the unknown name is a near miss of a declared option or belongs to a sibling / not-yet-named command; distinct by (declaration signature, argv, policy)"
+	S("C07").Rule = "declarations with sibling commands and nested namespaces x planned argv with unknown option tokens (near misses: case flip, one edit, truncated prefix, with/without namespace prefix, wrong delimiter; options of siblings or of commands named later; unknown runes; forms --u, --u=v, -u, -u=v, -uV) at random positions x policy {none, IgnoreUnknown, handler returning same / dropping one / a replacement}; under policy none a third of the cases parse another vector on the same parser object first; oracle: R (ErrUnknownFlag naming the first unknown name | verbatim pass-through and continued parsing | handler call log: name, inline argument, exactly the unconsumed args, returned slice parsed next). non-trivial: the unknown name is a near miss of a declared option or belongs to a sibling / not-yet-named command; distinct by (declaration signature, argv, policy)"
 	runProp(t, "C07", genC07, c07Oracle)
 }
